@@ -1,9 +1,12 @@
+import GramModel.Lemmas.ArmsTie
 import GramModel.Check
 import GramModel.Oracle
 import GramModel.Lemmas.Oracle
 import GramModel.Lemmas.Whnf
 import GramModel.Lemmas.Fuel
 import GramModel.Lemmas.UnifyAgree
+import GramModel.Lemmas.ConvCoherence
+import GramModel.Lemmas.SoundRun
 
 /-!
 # C06 — definitional equality used by the checker agrees with evaluation
@@ -235,3 +238,219 @@ theorem C06_unify_symm : C06_unify_symm_stmt := by
   have hx' : convX g s.dctx b a = some r' := by rw [FuelLemmas.convX_symm]; exact hx
   have e2 := ((C06_unify_layers_agree_fixed f' b a s hb ha hD).2 r2 s2 h2).2 g r' hx'
   exact e1.trans e2.symm
+
+/-! ## Evaluation, normalisation and the conversion check cohere (`Lemmas/ConvCoherence.lean`)
+
+All of this is derived from confluence of the declarative conversion (`Lemmas/CCPar.lean` …
+`CCJoin.lean`): convertible terms have joinable erasures, and joinable weak head normal forms have the
+same head. -/
+
+/-- A step of the call-by-value evaluator is a conversion of the declarative rules — in *every*
+definitions context, with no assumption on the term: the evaluator never consults the context, its
+group rule is literally the `letStep` head reduction, and its congruence rule for the first definition
+of a group is the group congruence of `Conv`. -/
+def C06_step_conv_stmt : Prop := ∀ (Δ : DCtxX) (t t' : Tm), Step t t' → Conv Δ t t'
+theorem C06_step_conv : C06_step_conv_stmt := fun Δ _ _ h => ConvCoherence.step_conv h Δ
+
+def C06_steps_conv_stmt : Prop := ∀ (Δ : DCtxX) (t t' : Tm), Steps t t' → Conv Δ t t'
+theorem C06_steps_conv : C06_steps_conv_stmt := fun Δ _ _ h => ConvCoherence.steps_conv h Δ
+
+/-- Evaluation keeps terms well scoped (and hole-free: `Canonical.Step_holeFree`). -/
+def C06_step_scoped_stmt : Prop :=
+  ∀ (n : Nat) (t t' : Tm), Step t t' → wellScoped n t = true → wellScoped n t' = true
+theorem C06_step_scoped : C06_step_scoped_stmt := fun n _ _ h => ConvCoherence.Step_wellScoped h n
+
+/-- **Normalising the way the checker does yields the literal that running yields.**  For every
+hole-free term (closed or not, accepted or not), under any hole-free definitions context whose offsets
+are in range: if running it (any number of steps) ends in an integer literal, `true` or `false`, then
+the independent checker's weak head normalizer — at *any* fuel at which it answers — returns exactly
+that literal. -/
+def C06_eval_whnf_agree_stmt : Prop :=
+  ∀ (n f : Nat) (Δ : DCtxX) (t w : Tm), t.holeFree = true →
+    (∀ e ∈ Δ, ∀ d o, e = some (d, o) → d.holeFree = true) →
+    (∀ p d off, Δ[p]? = some (some (d, off)) → off ≤ p + 1) →
+    whnfX f Δ t = some w →
+    (∀ k, evalFuel n t = .lit k → w = .lit k) ∧
+    (evalFuel n t = .tt → w = .tt) ∧ (evalFuel n t = .ff → w = .ff)
+theorem C06_eval_whnf_agree : C06_eval_whnf_agree_stmt := by
+  intro n f Δ t w ht hD hW hw
+  have hs := evalFuel_steps n t
+  refine ⟨fun k e => ?_, fun e => ?_, fun e => ?_⟩ <;> rw [e] at hs
+  · exact ConvCoherence.whnfX_steps_ground hD hW ht hs (.inl ⟨k, rfl⟩) hw
+  · exact ConvCoherence.whnfX_steps_ground hD hW ht hs (.inr (.inl rfl)) hw
+  · exact ConvCoherence.whnfX_steps_ground hD hW ht hs (.inr (.inr rfl)) hw
+
+/-- The closed form (the empty definitions context of a whole program). -/
+def C06_eval_whnf_agree_closed_stmt : Prop :=
+  ∀ (n f : Nat) (t w : Tm), t.holeFree = true → whnfX f [] t = some w →
+    (∀ k, evalFuel n t = .lit k → w = .lit k) ∧
+    (evalFuel n t = .tt → w = .tt) ∧ (evalFuel n t = .ff → w = .ff)
+theorem C06_eval_whnf_agree_closed : C06_eval_whnf_agree_closed_stmt :=
+  fun n f t w ht hw => C06_eval_whnf_agree n f [] t w ht (fun _ he => by cases he)
+    (fun p d off e => by simp at e) hw
+
+/-- The same for the model of gram's own `normalize_weak_head` (store layer): a run that answers
+returns the literal the evaluator finds, and leaves the whole state as it was. -/
+def C06_eval_whnfS_agree_stmt : Prop :=
+  ∀ (n f : Nat) (t w : Tm) (s s' : St), t.holeFree = true →
+    (∀ e ∈ s.dctx, ∀ d o, e = some (d, o) → d.holeFree = true) →
+    (∀ p d off, s.dctx[p]? = some (some (d, off)) → off ≤ p + 1) →
+    whnfS f t s = .ok w s' →
+    s' = s ∧ (∀ k, evalFuel n t = .lit k → w = .lit k) ∧
+    (evalFuel n t = .tt → w = .tt) ∧ (evalFuel n t = .ff → w = .ff)
+theorem C06_eval_whnfS_agree : C06_eval_whnfS_agree_stmt := by
+  intro n f t w s s' ht hD hW hw
+  have hs := evalFuel_steps n t
+  have hst : s' = s := (CCPar.whnfS_ok_all ht hD hw).1
+  refine ⟨hst, fun k e => ?_, fun e => ?_, fun e => ?_⟩ <;> rw [e] at hs
+  · exact (ConvCoherence.whnfS_steps_ground hD hW ht hs (.inl ⟨k, rfl⟩) hw).2
+  · exact (ConvCoherence.whnfS_steps_ground hD hW ht hs (.inr (.inl rfl)) hw).2
+  · exact (ConvCoherence.whnfS_steps_ground hD hW ht hs (.inr (.inr rfl)) hw).2
+
+/-- Conversely: if the evaluator ends in a *value* and the normalizer answers a literal, the value is
+that literal. -/
+def C06_whnf_eval_agree_stmt : Prop :=
+  ∀ (n f : Nat) (Δ : DCtxX) (t w : Tm), t.holeFree = true →
+    (∀ p d off, Δ[p]? = some (some (d, off)) → off ≤ p + 1) →
+    isValue (evalFuel n t) = true → whnfX f Δ t = some w →
+    ((∃ k, w = .lit k) ∨ w = .tt ∨ w = .ff) → evalFuel n t = w
+theorem C06_whnf_eval_agree : C06_whnf_eval_agree_stmt :=
+  fun n f _ t _ ht hW hv hw hg =>
+    ConvCoherence.steps_value_whnfX_ground (f := f) hW ht (evalFuel_steps n t) hv hg hw
+
+/-- (The converse needs "ends in a value": the normalizer is call-by-name at the head, the evaluator
+call-by-value, so the normalizer may discard an argument on which the evaluator gets stuck:
+`((x : int) => 3) (1 / 0)` normalises to `3` and is stuck, on the division, under evaluation.) -/
+def C06_whnf_eval_agree_unrestricted : Prop :=
+  ∀ (n f : Nat) (t w : Tm), t.holeFree = true → step (evalFuel n t) = none → whnfX f [] t = some w →
+    ((∃ k, w = .lit k) ∨ w = .tt ∨ w = .ff) → evalFuel n t = w
+theorem C06_whnf_eval_agree_refuted : ¬ C06_whnf_eval_agree_unrestricted := by
+  intro h
+  have := h 5 5 (.app (.lam 1 false .int (.lit 3)) (.bin .quot (.lit 1) (.lit 0))) (.lit 3) rfl
+    (by decide) (by decide) (.inl ⟨3, rfl⟩)
+  revert this
+  decide
+
+/-- **Every term is judged equal to any term it reduces to.**  For a hole-free term and any of its
+reducts under evaluation, the independent conversion check — at any fuel, under any hole-free
+definitions context whose offsets are in range — answers `true` whenever it answers.  (With
+`C06_conv_refl`: and to itself.) -/
+def C06_conv_reduct_stmt : Prop :=
+  ∀ (f : Nat) (Δ : DCtxX) (t t' : Tm) (r : Bool), t.holeFree = true →
+    (∀ e ∈ Δ, ∀ d o, e = some (d, o) → d.holeFree = true) →
+    (∀ p d off, Δ[p]? = some (some (d, off)) → off ≤ p + 1) →
+    Steps t t' → convX f Δ t t' = some r → r = true
+theorem C06_conv_reduct : C06_conv_reduct_stmt := by
+  intro f Δ t t' r ht hD hW hs h
+  cases r with
+  | true => rfl
+  | false =>
+    exact (ConvCoherence.convX_of_conv ht (ConvCoherence.Steps_holeFree hs ht) hD hW
+      (ConvCoherence.steps_conv hs Δ) h).elim
+
+/-- In particular for the term the fuelled evaluator reaches. -/
+def C06_conv_eval_stmt : Prop :=
+  ∀ (n f : Nat) (t : Tm) (r : Bool), t.holeFree = true →
+    convX f [] t (evalFuel n t) = some r → r = true
+theorem C06_conv_eval : C06_conv_eval_stmt :=
+  fun n f t r ht h => C06_conv_reduct f [] t _ r ht (fun _ he => by cases he)
+    (fun p d off e => by simp at e) (evalFuel_steps n t) h
+
+/-- **Completeness of the conversion check up to fuel**: on hole-free terms, convertible terms are
+never judged different. -/
+def C06_conv_complete_stmt : Prop :=
+  ∀ (f : Nat) (Δ : DCtxX) (a b : Tm), a.holeFree = true → b.holeFree = true →
+    (∀ e ∈ Δ, ∀ d o, e = some (d, o) → d.holeFree = true) →
+    (∀ p d off, Δ[p]? = some (some (d, off)) → off ≤ p + 1) →
+    Conv Δ a b → convX f Δ a b ≠ some false
+theorem C06_conv_complete : C06_conv_complete_stmt :=
+  fun _ _ _ _ ha hb hD hW hc => ConvCoherence.convX_of_conv ha hb hD hW hc
+
+/-- **The judgement coincides with convertibility** whenever it answers (terms may have no normal
+form, so "whenever it answers" cannot be dropped: see `C12_whnfX_omega`): on hole-free terms an answer
+`true` is a `Conv` derivation (`C03_conv_sound`) and an answer `false` a refutation of `Conv`. -/
+def C06_conv_decides_stmt : Prop :=
+  ∀ (f : Nat) (Δ : DCtxX) (a b : Tm) (r : Bool), a.holeFree = true → b.holeFree = true →
+    (∀ e ∈ Δ, ∀ d o, e = some (d, o) → d.holeFree = true) →
+    (∀ p d off, Δ[p]? = some (some (d, off)) → off ≤ p + 1) →
+    convX f Δ a b = some r → (r = true ↔ Conv Δ a b)
+theorem C06_conv_decides : C06_conv_decides_stmt :=
+  fun _ _ _ _ _ ha hb hD hW h => ConvCoherence.convX_decides ha hb hD hW h
+
+/-- … and convertibility of closed hole-free terms is **equality of normal forms up to names and
+parameter annotations** in the only form that makes sense without normalisation: the erasures (names,
+parameter annotations and annotations of definitions forgotten) have a common reduct under parallel
+reduction; by confluence (`Pars.confluence`) a normal form, if there is one, is that common reduct. -/
+def C06_conv_iff_join_stmt : Prop :=
+  ∀ (a b : Tm), a.holeFree = true → b.holeFree = true →
+    (Conv [] a b ↔ ∃ c, CCPar.Pars [] 0 (CCSubst.er a) c ∧ CCPar.Pars [] 0 (CCSubst.er b) c)
+theorem C06_conv_iff_join : C06_conv_iff_join_stmt :=
+  fun _ _ ha hb => ConvCoherence.conv_iff_join_closed ha hb
+
+/-- Consequence: besides being reflexive (`C06_conv_refl`) and symmetric (`C06_conv_symm`), the
+judgement is transitive on hole-free terms — whenever the third check answers, at whatever fuels. -/
+def C06_conv_trans_stmt : Prop :=
+  ∀ (f g h : Nat) (Δ : DCtxX) (a b c : Tm) (r : Bool), a.holeFree = true → b.holeFree = true →
+    c.holeFree = true →
+    (∀ e ∈ Δ, ∀ d o, e = some (d, o) → d.holeFree = true) →
+    (∀ p d off, Δ[p]? = some (some (d, off)) → off ≤ p + 1) →
+    convX f Δ a b = some true → convX g Δ b c = some true → convX h Δ a c = some r → r = true
+theorem C06_conv_trans : C06_conv_trans_stmt := by
+  intro f g h Δ a b c r ha hb hc hD hW h1 h2 h3
+  exact (ConvCoherence.convX_decides ha hc hD hW h3).2
+    (.trans (TypingSound.convX_sound f Δ a b ha hb hD h1) (TypingSound.convX_sound g Δ b c hb hc hD h2))
+
+/-! ### Non-vacuity: one program through the evaluator, both normalizers and both conversion checks -/
+
+/-- `fact = (n : int) => if n == 0 then 1 else n * fact (n - 1); fact 3` -/
+def C06_fact3 : Tm :=
+  .letg (.cons 0 (.pi 1 false .int .int)
+          (.lam 2 false .int
+            (.ite (.bin .eq (.var 2 0) (.lit 0)) (.lit 1)
+              (.bin .prod (.var 2 0) (.app (.var 0 1) (.bin .diff (.var 2 0) (.lit 1))))))
+          .nil)
+        (.app (.var 0 0) (.lit 3))
+
+example : C06_fact3.holeFree = true ∧ wellScoped 0 C06_fact3 = true := by decide
+-- the evaluator, the independent normalizer and the model of gram's normalizer find the same literal
+example : evalFuel 200 C06_fact3 = .lit 6 := by decide
+example : whnfX 60 [] C06_fact3 = some (.lit 6) := by decide
+example : (match whnfS 60 C06_fact3 {} with | .ok w s => w == .lit 6 && s.store.isEmpty | _ => false) = true := by
+  decide
+-- hence an instance of `C06_eval_whnf_agree_closed` with all hypotheses true
+example : (Tm.lit 6) = .lit 6 :=
+  (C06_eval_whnf_agree_closed 200 60 C06_fact3 (.lit 6) (by decide) (by decide)).1 6 (by decide)
+-- the term is judged equal to its value, and to the reduct after 7 steps (a partially evaluated term
+-- that still contains the recursive group), by both checks
+example : convX 60 [] C06_fact3 (.lit 6) = some true := by decide
+example : (evalFuel 7 C06_fact3 != evalFuel 200 C06_fact3) = true := by decide
+example : convX 60 [] C06_fact3 (evalFuel 7 C06_fact3) = some true := by decide
+example : (match unifyS 60 C06_fact3 (evalFuel 7 C06_fact3) {} with
+    | .ok r s => r && s.store.isEmpty | _ => false) = true := by decide
+-- and different from a wrong value: `false` answers exist (`C06_conv_decides` is not vacuous on `false`)
+example : convX 60 [] C06_fact3 (.lit 7) = some false := by decide
+-- the demo programs of `Lemmas/SoundRun.lean`
+example : evalFuel 40 SoundRun.iteProg = .lit 7 ∧ whnfX 40 [] SoundRun.iteProg = some (.lit 7) := by
+  decide
+example : evalFuel 40 SoundRun.idProg = .lit 3 ∧ whnfX 40 [] SoundRun.idProg = some (.lit 3) := by
+  decide
+
+/-! ## Normalizer and evaluator contain the same primitive rules; structural equality relates like with like
+(tables regenerated from `normalizer.rs` / `equality.rs` on every run by `extract/arms.py`) -/
+
+/-- For each of the nine binary operators, the primitive that the corresponding arm of
+`normalizer.rs::normalize_weak_head` applies to two integer literals computes exactly the model's `delta` — the
+same function `C02_step_prims_tie` proves for `evaluator.rs::step`: the checker computes what the evaluator
+computes, operator by operator, for all operands. -/
+def C06_whnf_prims_tie_stmt : Prop :=
+  ∀ (op : BinOp) (a b : Int),
+    (primOf Generated.whnfPrims op.toV).bind (fun p => p.sem a b) = delta op a b ∧
+    (primOf Generated.whnfPrims op.toV).bind (fun p => p.sem a b) =
+      (primOf Generated.stepPrims op.toV).bind (fun p => p.sem a b)
+theorem C06_whnf_prims_tie : C06_whnf_prims_tie_stmt := by
+  intro op a b; exact ⟨whnfPrims_delta op a b, by rw [whnfPrims_delta, stepPrims_delta]⟩
+
+/-- Every structural arm of `equality.rs::syntactically_equal` compares the same variant on both sides, the i-th
+child with the i-th child, every child (λ: bodies only), joined by `&&` only. -/
+def C06_syneq_pairs_tie_stmt : Prop := pairsOK Generated.synEqPairs = true
+theorem C06_syneq_pairs_tie : C06_syneq_pairs_tie_stmt := by unfold C06_syneq_pairs_tie_stmt; decide
